@@ -48,6 +48,18 @@ func generate(w *mon.W) {
 	g := &gen.Syn{Rng: rng}
 	n := w.Pick(12_000, 250_000)
 	mrng := gen.RNG(w.Seed, "c10mut")
+	for _, kind := range gen.WideKinds {
+		for _, n := range gen.WideSizes {
+			if n > 130 && w.Quick() {
+				continue
+			}
+			prog := gen.Wide(kind, n)
+			for mode := 0; mode < 3; mode += 2 {
+				c := &Case{Prog: prog, Mode: mode, Seed: int64(n)}
+				w.Do(fmt.Sprint("wide|", kind, "|", n, "|", mode), func(r *mon.R) { Check(c, r) })
+			}
+		}
+	}
 	for i := 0; i < n && !w.Stopped(); i++ {
 		prog := gen.SynProgram(g, i)
 		seed := rng.Int63()
